@@ -406,7 +406,13 @@ class Body:
                 base = ("deref", base)
             elif isinstance(e, dict):
                 if "f" in e:
-                    base = ("field", base, e["n"] if e.get("n") is not None else e["f"])
+                    b0 = base
+                    while b0[0] in ("ref", "deref"):
+                        b0 = b0[1]
+                    if e.get("n") is None and b0[0] == "agg" and b0[1].get("agg") == "tuple" and e["f"] < len(b0[2]):
+                        base = b0[2][e["f"]]   # (a, b).0 == a
+                    else:
+                        base = ("field", base, e["n"] if e.get("n") is not None else e["f"])
                 elif "dc" in e:
                     base = ("downcast", base, e["dc"] if e["dc"] is not None else e["v"])
                 elif "idx" in e:
